@@ -62,7 +62,7 @@ def run(tier):
     res = vlib.Result("C14", tier, "other")
     b = vlib.build_property("C14")
     rng = random.Random("c14/%d" % vlib.seed())
-    nh = 17 if tier == "quick" else 300
+    nh = 19 if tier == "quick" else 300
     histories = []
     # corpus-style fixed shapes first: A;A, A;B;A, mixed entry points, mixed accelerators
     def st(fam, sd, acc=None, entry="main", extra=()):
@@ -102,6 +102,12 @@ def run(tier):
                       st("single:conv_groups", 1), st("single:conv_groups", 1, entry="convert")])
     histories.append([st("unsupported:pad_shared_tensor", 1, entry="convert_bytes"), st("unsupported:pad_shared_tensor", 1, entry="convert_bytes_ro"),
                       st("unsupported:pad_shared_buffer", 1, entry="convert_bytes"), st("unsupported:pad_shared_buffer", 1)])
+    # constants the compiler makes up whose identity derives from their VALUES (the all-ones kernel of a MEAN, the zero bias
+    # of an operator without one): equal ones of an earlier compilation must not be found again - after each entry point
+    histories.append([st("single:mean", 1, entry="convert_bytes"), st("single:mean", 2), st("single:mean", 1, entry="convert_bytes"),
+                      st("single:mean", 1), st("single:mean", 3, entry="convert")])
+    histories.append([st("single:mean_axis", 1, entry="convert_bytes"), st("single:mean_axis", 1, entry="convert_bytes"),
+                      st("single:fc", 2, entry="convert_bytes"), st("single:fc", 2), st("single:mean_axis", 1)])
     while len(histories) < nh:
         n = rng.randrange(2, 6)
         h = []
